@@ -28,6 +28,7 @@
 #include <stdint.h>
 #include <stdbool.h>
 #include <string.h>
+#include <limits.h>
 #ifdef FREEBSD
 #include <sys/endian.h>
 #elif __APPLE__
@@ -137,6 +138,16 @@ bool index_read(zckCtx *zck, char *data, size_t size, size_t max_length) {
             return false;
         }
         new->length = chunk_length;
+
+        /* Every size and offset is reported through ssize_t, so refuse
+         * anything that can't be represented */
+        size_t hdr_length = zck->lead_size + zck->header_length;
+        if(new->length > SSIZE_MAX || new->comp_length > SSIZE_MAX ||
+           hdr_length > SSIZE_MAX - new->comp_length ||
+           idx_loc > SSIZE_MAX - new->comp_length - hdr_length) {
+            set_fatal_error(zck, "Chunk %i is too large", count);
+            return false;
+        }
         new->zck = zck;
         new->valid = 0;
         new->number = count;
